@@ -85,6 +85,7 @@ type Gen struct {
 	noYield   int
 	level     int
 	Sites     int // number of fault(i) sites planted so far (errors profile)
+	pure      int // > 0: generating statements that must not touch anything outside themselves
 }
 
 func New(t *rapid.T, p *Profile) *Gen {
@@ -536,7 +537,7 @@ func (g *Gen) tabExpr(d int) L.Expr {
 			case 3:
 				t.Fields = append(t.Fields, kv(num(float64(100+i)), g.expr(g.anyKind(), d-1)))
 			default:
-				t.Fields = append(t.Fields, kv(g.expr([]Kind{KStr, KInt, KBool}[g.n(3, "keykind")], d-1), g.expr(KInt, d-1)))
+				t.Fields = append(t.Fields, kv(g.expr([]Kind{KStr, KInt}[g.n(2, "keykind")], d-1), g.expr(KInt, d-1)))
 				// computed keys may collide with positional slots or be nil-free; string/int/bool keys never fault
 				t.Fields[len(t.Fields)-1].Key = bin("..", str("k"), t.Fields[len(t.Fields)-1].Key.(L.Expr))
 				if g.n(2, "plainkey") == 0 {
